@@ -373,47 +373,15 @@ func proposalProvider(env *p1env) eth2client.ProposalProvider {
 	return env
 }
 
-func runPropose(t *testing.T, in *ProposeIn) result {
-	lg := &p1log{}
-	var panicked bool
-	var msg string
+// runProposeOps runs the proposals one after the other on ONE proposer service (built from the first
+// input: which collaborators exist is decided at construction); before each proposal the mocks are
+// switched to that proposal's input, a fresh log and fresh call counters.  It stops at the first panic.
+func runProposeOps(t *testing.T, ops []*ProposeIn) (panics []bool, msgs []string, logs []*p1log) {
 	synctest.Test(t, func(t *testing.T) {
-		ctx, cancel := context.WithTimeout(context.Background(), 4*time.Second)
-		defer cancel()
-		sc := &again{then: in.Then}
-		env := &p1env{in: in, log: lg, sc: sc}
-		// The relay that returns the payload: the first unblinding relay of the selection the
-		// code should make (providers, or all providers when there are none / unblind-all).
-		first := func() uint64 {
-			cands := in.Providers
-			if len(cands) == 0 || in.UnblindAll {
-				cands = in.AllProviders
-			}
-			for _, p := range cands {
-				if p.Unblinds {
-					return p.ID
-				}
-			}
-			return ^uint64(0)
-		}
-		mk := func(ps []ProvIn) []builderclient.BuilderBidProvider {
-			out := make([]builderclient.BuilderBidProvider, 0, len(ps))
-			for _, p := range ps {
-				r := &p1relay{id: p.ID, in: in, log: lg, first: first, sc: sc}
-				if p.Unblinds {
-					out = append(out, p1unblinder{r})
-				} else {
-					out = append(out, r)
-				}
-			}
-			return out
-		}
-		if in.Auction == "res" {
-			env.res = &blockauctioneer.Results{Providers: mk(in.Providers), AllProviders: mk(in.AllProviders),
-				Participation: map[string]*blockauctioneer.Participation{}}
-		}
+		base := ops[0]
+		env := &p1env{in: base, log: &p1log{}, sc: &again{}}
 		level := zerolog.Disabled
-		if in.Trace {
+		if base.Trace {
 			level = zerolog.TraceLevel
 		}
 		params := []standardproposer.Parameter{
@@ -427,27 +395,79 @@ func runPropose(t *testing.T, in *ProposeIn) result {
 			standardproposer.WithRANDAORevealSigner(env),
 			standardproposer.WithBeaconBlockSigner(env),
 			standardproposer.WithBlobSidecarSigner(env),
-			standardproposer.WithUnblindFromAllRelays(in.UnblindAll),
+			standardproposer.WithUnblindFromAllRelays(base.UnblindAll),
 			standardproposer.WithBuilderBoostFactor(100),
 		}
-		if in.Graffiti != "none" {
+		if base.Graffiti != "none" {
 			params = append(params, standardproposer.WithGraffitiProvider(env))
 		}
-		if in.Auction != "none" {
+		if base.Auction != "none" {
 			params = append(params, standardproposer.WithBlockAuctioneer(env))
 		}
-		svc, err := standardproposer.New(ctx, params...)
+		svc, err := standardproposer.New(context.Background(), params...)
 		if err != nil {
 			t.Fatalf("proposer constructor: %v", err)
 		}
-		duty := beaconblockproposer.NewDuty(proposeSlot, 1)
-		duty.SetAccount(p1account{})
-		duty.SetRandaoReveal(phase0.BLSSignature{1})
-		panicked, msg = catch(func() { svc.Propose(ctx, duty) })
-		cancel()
-		synctest.Wait()
+		for k, in := range ops {
+			lg := &p1log{}
+			sc := &again{then: in.Then}
+			env.in, env.log, env.sc, env.res = in, lg, sc, nil
+			// The relay that returns the payload: the first unblinding relay of the selection the
+			// code should make (providers, or all providers when there are none / unblind-all).
+			first := func() uint64 {
+				cands := in.Providers
+				if len(cands) == 0 || in.UnblindAll {
+					cands = in.AllProviders
+				}
+				for _, p := range cands {
+					if p.Unblinds {
+						return p.ID
+					}
+				}
+				return ^uint64(0)
+			}
+			mk := func(ps []ProvIn) []builderclient.BuilderBidProvider {
+				out := make([]builderclient.BuilderBidProvider, 0, len(ps))
+				for _, p := range ps {
+					r := &p1relay{id: p.ID, in: in, log: lg, first: first, sc: sc}
+					if p.Unblinds {
+						out = append(out, p1unblinder{r})
+					} else {
+						out = append(out, r)
+					}
+				}
+				return out
+			}
+			if in.Auction == "res" {
+				env.res = &blockauctioneer.Results{Providers: mk(in.Providers), AllProviders: mk(in.AllProviders),
+					Participation: map[string]*blockauctioneer.Participation{}}
+			}
+			ctx, cancel := context.WithTimeout(context.Background(), 4*time.Second)
+			duty := beaconblockproposer.NewDuty(proposeSlot+phase0.Slot(k), 1)
+			duty.SetAccount(p1account{})
+			duty.SetRandaoReveal(phase0.BLSSignature{1})
+			panicked, msg := catch(func() { svc.Propose(ctx, duty) })
+			cancel()
+			synctest.Wait()
+			panics, msgs, logs = append(panics, panicked), append(msgs, msg), append(logs, lg)
+			if panicked {
+				break
+			}
+		}
 	})
+	return panics, msgs, logs
+}
 
+func runPropose(t *testing.T, in *ProposeIn) result {
+	panics, msgs, logs := runProposeOps(t, []*ProposeIn{in})
+	res, rec, tr := proposeResult(in, logs[0], panics[0], msgs[0])
+	res.inTerm = App("IPropose", rec)
+	res.obsTerm = App("OPropose", Bool(panics[0]), tr)
+	return res
+}
+
+// proposeResult: the input record and the observed trace of one proposal as terms, with its counters.
+func proposeResult(in *ProposeIn, lg *p1log, panicked bool, msg string) (result, string, string) {
 	lg.mu.Lock()
 	defer lg.mu.Unlock()
 	graffiti := lg.graffiti
@@ -495,12 +515,12 @@ func runPropose(t *testing.T, in *ProposeIn) result {
 	case "name":
 		nc = App("NCName", bytesTerm(in.ClientName))
 	}
-	inTerm := App("IPropose", Record("p1_graffiti", g, "p1_node_client", nc, "p1_auction", a, "p1_proposal", p, "p1_sign_ok", Bool(in.SignOK),
-		"p1_unblind_all", Bool(in.UnblindAll), "p1_unblind_ok", Bool(in.UnblindOK && in.UnblindFailures < 3), "p1_submit_ok", Bool(in.SubmitOK)))
-	obsTerm := App("OPropose", Bool(panicked), Record("t_graffiti", bytesTerm(graffiti), "t_signed", Bool(lg.signed),
-		"t_unblind", nlist(unb), "t_submitted", Bool(lg.submitted)))
+	rec := Record("p1_graffiti", g, "p1_node_client", nc, "p1_auction", a, "p1_proposal", p, "p1_sign_ok", Bool(in.SignOK),
+		"p1_unblind_all", Bool(in.UnblindAll), "p1_unblind_ok", Bool(in.UnblindOK && in.UnblindFailures < 3), "p1_submit_ok", Bool(in.SubmitOK))
+	tr := Record("t_graffiti", bytesTerm(graffiti), "t_signed", Bool(lg.signed),
+		"t_unblind", nlist(unb), "t_submitted", Bool(lg.submitted))
 
-	res := result{inTerm: inTerm, obsTerm: obsTerm,
+	res := result{
 		obs: Observed{Panic: panicked, Message: msg, Detail: map[string]any{"graffiti": graffiti, "signed": lg.signed, "unblind": unb, "submitted": lg.submitted}}}
 	blinded := in.Proposal != nil && in.Proposal.Blinded
 	if in.Proposal != nil && in.Proposal.Version == 5 && !in.Proposal.Blinded && !in.Proposal.Present {
@@ -551,7 +571,7 @@ func runPropose(t *testing.T, in *ProposeIn) result {
 			res.nontrivial = true
 		}
 	}
-	return res
+	return res, rec, tr
 }
 
 // ---------------------------------------------------------------------------------------------
@@ -629,7 +649,7 @@ func genPropose(r *Rand) *ProposeIn {
 	in.Trace = r.Chance(1, 8)
 	// what the providers answer when asked again, and relays that fail before they answer
 	in.Then = []string{"", "flip", "flip", "nil"}[r.Intn(4)]
-	if r.Chance(1, 3) {
+	if r.Chance(1, 2) {
 		in.UnblindFailures = r.Range(1, 4)
 	}
 	return in
